@@ -16,6 +16,9 @@ lp = dprops.mine_looped(w)
 json.dump(lp, open(os.path.join(facts.VERIF, 'rules', 'looped.json'), 'w'), indent=1)
 bf = dprops.mine_boundflow(w)
 json.dump(bf, open(os.path.join(facts.VERIF, 'rules', 'boundflow.json'), 'w'), indent=1)
+rc = dprops.mine_retcover(w)
+json.dump(rc, open(os.path.join(facts.VERIF, 'rules', 'retcover.json'), 'w'), indent=1)
+print('shortcut returns', len(rc))
 su = dprops.mine_symupdates(w)
 json.dump(su, open(os.path.join(facts.VERIF, 'rules', 'symupdate.json'), 'w'), indent=1)
 print('symmetric-update places', len(su))
